@@ -145,13 +145,35 @@ def caseMap : Stdlib.CaseMap := ⟨Unicode.lowerStr, Unicode.upperStr⟩
 def builtinFloat (o : Nat) (nm : String) : Option (Registry.F Float) :=
   if nm == "str" then some (Registry.tot DebugFmt.strF) else Registry.builtin (N := Float) caseMap o nm
 
-def runCall (r : List String) : Option String :=
+/-- the host's local time zone (environment variable `SLAC_MODEL_TZ`, read once in `main`): how the four builtins that
+    consult it (`TimeRfc.zoned`) are answered -/
+inductive ZoneMode where
+  | utc                      -- unset or `UTC`: through the registry (the `Zone.utc` instances)
+  | zone (z : Time.Zone)     -- a POSIX rule string the model understands (`Zone.ofPosix`)
+  | unknown                  -- anything else
+
+def zoneMode : Option String → ZoneMode
+  | none => .utc
+  | some s => if s == "UTC" then .utc else match Time.Zone.ofPosix s.toList with | some z => .zone z | none => .unknown
+
+/-- the answer of a local-zone builtin under a non-UTC mode; `none` = not such a builtin (or mode `utc`) -/
+def zoneAnswer (zm : ZoneMode) (nm : String) (args : List V) : Option String :=
+  match zm with
+  | .utc => none
+  | .unknown => (TimeRfc.zoned (N := Float) Time.Zone.utc nm).map fun _ => "unmodelled local-time-zone"
+  | .zone z => (TimeRfc.zoned (N := Float) z nm).map fun f =>
+      match f args with
+      | none => "unmodelled local-offset-out-of-range"
+      | some res => showNRes res
+
+def runCall (zm : ZoneMode) (r : List String) : Option String :=
   match r with
   | off :: name :: n :: r => do
     let (args, _) ← parseN parseVal n.toNat! r []
     let o : Nat := if off == "0" then 0 else 1
     let nm := String.ofList (unhex name)
     if (nm == "sort" || nm == "max" || nm == "min") && !Order.safeB (Stdlib.smartVec args) then pure "unmodelled unsafe-order" else
+    if let some ans := zoneAnswer zm nm args then pure ans else
     match builtinFloat o nm with
     | none => pure (match RegexRun.run nm args with | some res => showNRes res | none => "unmodelled")
     | some f => match f args with
@@ -380,7 +402,7 @@ def runJson (r : List String) : Option String := do
     | none => "err"
   pure s!"{canonJson j} ; {rt} ; {rtText} ; text {hex text}"
 
-def step (line : String) : String :=
+def step (zm : ZoneMode) (line : String) : String :=
   let r := match (line.trimAscii.toString.splitOn " ").filter (· ≠ "") with
     | "num" :: r => runNum r
     | "cmp" :: r => runCmp r
@@ -388,7 +410,7 @@ def step (line : String) : String :=
     | "env" :: r => runEnv r
     | "json" :: r => runJson r
     | "opt" :: r => runOpt r
-    | "call" :: r => runCall r
+    | "call" :: r => runCall zm r
     | "parse" :: r => runParse r
     | "rt" :: r => runRt r
     | "chkvf" :: r => runChkvf r
@@ -405,10 +427,10 @@ def step (line : String) : String :=
     | _ => none
   r.getD "bad"
 
-partial def loop (h out : IO.FS.Stream) : IO Unit := do
+partial def loop (zm : ZoneMode) (h out : IO.FS.Stream) : IO Unit := do
   let line ← h.getLine
   if line.isEmpty then return ()
-  out.putStrLn (step line)
-  loop h out
+  out.putStrLn (step zm line)
+  loop zm h out
 
-def main : IO Unit := do loop (← IO.getStdin) (← IO.getStdout)
+def main : IO Unit := do loop (zoneMode (← IO.getEnv "SLAC_MODEL_TZ")) (← IO.getStdin) (← IO.getStdout)
